@@ -553,6 +553,10 @@ func (r *Router) Close() error {
 
 	if r.closed {
 		r.logger.Debug("Already closed", nil)
+		// a previous Close may have timed out: don't report success while handlers are still running
+		if timedout := r.waitForHandlers(); timedout {
+			return errors.New("router close timeout")
+		}
 		return nil
 	}
 
